@@ -52,12 +52,7 @@ fn def_path(tcx: TyCtxt<'_>, d: DefId) -> String {
 }
 
 fn pretty_path(tcx: TyCtxt<'_>, d: DefId) -> String {
-    let p = tcx.def_path_str(d);
-    if d.is_local() {
-        format!("{}::{}", tcx.crate_name(d.krate), p)
-    } else {
-        p
-    }
+    tcx.def_path_str(d)
 }
 
 fn span_str(tcx: TyCtxt<'_>, sp: rustc_span::Span) -> String {
@@ -709,6 +704,13 @@ impl rustc_driver::Callbacks for Cb {
         _compiler: &rustc_interface::interface::Compiler,
         tcx: TyCtxt<'tcx>,
     ) -> rustc_driver::Compilation {
+        rustc_middle::ty::print::with_resolve_crate_name!(self.analyse(tcx));
+        rustc_driver::Compilation::Continue
+    }
+}
+
+impl Cb {
+    fn analyse<'tcx>(&mut self, tcx: TyCtxt<'tcx>) {
         let crate_name = tcx.crate_name(LOCAL_CRATE).to_string();
         let is_bin = tcx.crate_types().iter().any(|t| matches!(t, rustc_session_types::CrateType::Executable));
         let kind = if crate_name == "build_script_main" {
@@ -722,14 +724,16 @@ impl rustc_driver::Callbacks for Cb {
         let mut adts = Vec::new();
         let mut consts = Vec::new();
         let mut mods = Vec::new();
+        let mut keys: Vec<_> = tcx.mir_keys(()).iter().copied().collect();
+        keys.sort_by_key(|k| tcx.def_path(k.to_def_id()).to_string_no_crate_verbose());
+        for ldid in keys {
+            if let Some(j) = fn_json(tcx, ldid) {
+                fns.push(j);
+            }
+        }
         for ldid in tcx.hir_crate_items(()).definitions() {
             let did = ldid.to_def_id();
             match tcx.def_kind(did) {
-                DefKind::Fn | DefKind::AssocFn | DefKind::Closure => {
-                    if let Some(j) = fn_json(tcx, ldid) {
-                        fns.push(j);
-                    }
-                }
                 DefKind::Struct | DefKind::Enum | DefKind::Union => adts.push(adt_json(tcx, did)),
                 DefKind::Const { .. } | DefKind::Static { .. } | DefKind::AssocConst { .. } => {
                     if let Some(j) = const_item_json(tcx, did) {
@@ -761,7 +765,6 @@ impl rustc_driver::Callbacks for Cb {
         doc.write(&mut text);
         std::fs::create_dir_all(&self.out_dir).ok();
         std::fs::write(&path, text).expect("chessfacts: cannot write fact file");
-        rustc_driver::Compilation::Continue
     }
 }
 
